@@ -58,6 +58,7 @@ pub fn c01(ctx: &Ctx) -> Collector {
     run_space(&col, 18, &s_len_utf8(ctx.tier.thorough()), &p, true, &no_extra);
     run_space(&col, 19, &spaces::s_forced_dense(ctx.tier.thorough()), &p, true, &no_extra);
     run_histories(&col, 22, &p, ctx.tier.thorough());
+    run_space(&col, 23, &spaces::s_antimask(ctx.tier.thorough()), &p, true, &no_extra);
     if ctx.tier.thorough() {
         // the complete (length x forced version) triangle of C05, judged here for this property
         run_space(&col, 21, &s_forced_versions(true), &p, true, &no_extra);
@@ -80,6 +81,7 @@ pub fn c02(ctx: &Ctx) -> Collector {
     run_space(&col, 11, &spaces::s_cap_families(ctx.tier.thorough()), &p, true, &no_extra);
     run_space(&col, 12, &spaces::s_forced_dense(ctx.tier.thorough()), &p, true, &no_extra);
     run_histories(&col, 13, &p, ctx.tier.thorough());
+    run_space(&col, 14, &spaces::s_antimask(ctx.tier.thorough()), &p, true, &no_extra);
     crate::props::c02x::corruption(ctx, &col);
     col
 }
@@ -255,6 +257,7 @@ pub fn c06(ctx: &Ctx) -> Collector {
     run_space(&col, 18, &s_len_utf8(ctx.tier.thorough()), &p, true, &no_extra);
     run_space(&col, 19, &spaces::s_forced_dense(ctx.tier.thorough()), &p, true, &no_extra);
     run_histories(&col, 22, &p, ctx.tier.thorough());
+    run_space(&col, 23, &spaces::s_antimask(ctx.tier.thorough()), &p, true, &no_extra);
     if ctx.tier.thorough() {
         // the complete (length x forced version) triangle of C05, judged here for this property
         run_space(&col, 21, &s_forced_versions(true), &p, true, &no_extra);
@@ -454,6 +457,7 @@ pub fn c10(ctx: &Ctx) -> Collector {
     run_space(&col, 25, &s_mixed_auto(if ctx.tier.thorough() { 64 } else { 48 }, ctx.tier.thorough()), &p, false, &no_extra);
     run_space(&col, 24, &s_len_utf8(ctx.tier.thorough()), &p, false, &no_extra);
     run_space(&col, 26, &spaces::s_forced_dense(ctx.tier.thorough()), &p, false, &no_extra);
+    run_space(&col, 27, &spaces::s_antimask(ctx.tier.thorough()), &p, false, &no_extra);
     seeded_supplement(ctx, &col, 20, &p, false);
     col
 }
